@@ -81,3 +81,8 @@ check('C13', 'simdist', 'exploration', 'structural invariant at quiescent points
       'is accounted by group class: only factor allreduces of the exact volume on the default group on factor steps, only inverse broadcasts (right volume, root) in gradient-worker groups on inverse steps, '
       'only gradient broadcasts in receiver groups; nothing in a world of one.',
       'Held tensors = reachable from vars(layer); simdist stands in for the backend; histories are construction + steps.', 'DESIGN.md §3 C13')
+
+check('C04', 'refmodel', 'exploration', 'runtime value oracle: float64 factor recurrence recomputed from harness-captured layer inputs / output-gradients, on one and on 2-4 simulated ranks',
+      'After every step (and around eval passes) the factors in state_dict() are compared with decay*previous+(1-decay)*mean second moment (identity start, micro-batch and cross-rank mean, '
+      'loss-scale division), must be bitwise unchanged on non-update steps, symmetric, PSD and stored in the requested dtype.',
+      'The conv normalisation convention is fixed in DESIGN.md 2.2; bfloat16 factors get a looser (still discriminating) bound.', 'DESIGN.md §3 C04')
